@@ -64,7 +64,10 @@ def main():
         return 1
 
     try:
-        env = Environment.empty(unreachable_error=args.lint)
+        env = Environment.empty(
+            unreachable_error=args.lint,
+            word_size=args.word_size // 8
+        )
         ast = parse(source).evaluate(env)
 
         if args.dump_ast:
